@@ -1,5 +1,6 @@
 #!/bin/bash
 # Runs every registered quick check against every seeded change (applied to /repo, reverted afterwards).
+# PROPS="C03 C13" restricts the checks that are run (used when a seed makes searches hang: every check waits for its watchdog).
 # Writes seeded/<id>/result.txt and fills meta.json "caught_by". Usage: tools/seed_matrix.sh [seed-id ...]
 cd /verif
 ids="$@"; [ -z "$ids" ] && ids=$(ls seeded)
@@ -10,7 +11,7 @@ for id in $ids; do
   cd /verif
   : > $d/result.txt
   caught=""
-  for p in C01 C02 C03 C04 C05 C06 C07 C08 C09 C10 C11 C12 C13 C14 C15 C16; do
+  for p in ${PROPS:-C01 C02 C03 C04 C05 C06 C07 C08 C09 C10 C11 C12 C13 C14 C15 C16}; do
     out=$(./check $p quick 2>&1); rc=$?
     nv=$(echo "$out" | grep -c "^VIOLATION")
     props=$(echo "$out" | grep "^VIOLATION" | sed 's/.*property=\([A-Z0-9]*\).*/\1/' | sort -u | tr '\n' ',')
